@@ -385,4 +385,39 @@ PROPS['C06'] = {
     'design_ref': 'DESIGN.md section 5 C06',
 }
 
+PROPS['C07'] = {
+    'modules': ['contracts.fs_format', 'contracts.serialize_refs', 'contracts.conflict', 'contracts.pack_gc'],
+    'lemmas': [],
+    'level': 'other',
+    'explanation': 'proved: the reachability pass of the FileStorage packer (what is kept); bounded (labelled): the '
+                   'copy phase and the observable before/after equivalence, MappingStorage.pack',
+    'bounded': [
+        {'func': 'ZODB.FileStorage.FileStorage:FileStorage.pack<before-after>',
+         'bound': '7 fixed histories (undo records pointing across the pack time from a garbage object, two-level '
+                  'back-pointer chains, cycles, garbage, un-creation, relinked garbage) + 12 (thorough: 120) random '
+                  'histories of <=8 transactions over <=6 objects (link, unlink, modify, undo); every pack position '
+                  '(quick: half of them, sampled), gc on/off: loadBefore of every reachable object in every state '
+                  'from T on, iterator and undoLog after T, undo of the last transaction vs an unpacked copy, reopen '
+                  'with/without index, repeated pack to the same/earlier time (file bytes), empty database; '
+                  'MappingStorage for the first item; a refused pack must leave everything unchanged',
+         'timeout': 2400},
+    ],
+    'text': 'Mixed level. PROVED by generated VCs over a ghost model of the data file (record tiling, back pointers, '
+            'REFS(p) = references of the state a revision resolves to): GC.buildPackIndex computes the pack position '
+            'as the first transaction later than the pack time and maps every object to its LAST record below it '
+            'unless that is an un-creation; GC.findrefs returns REFS of the revision, following back pointers to the '
+            'end; GC.findReachableAtPacktime is a worklist closure (every root kept, every newly kept object kept at '
+            'its revision current at the pack time, all its references kept or still queued - multiset invariant); '
+            'GC.findReachableFromFuture establishes KEEP-BACK (every back pointer crossing the pack position names a '
+            'kept revision) and KEEP-CLOSED (the references of EVERY kept revision are kept objects); '
+            'GC.findReachable composes them from the constructor state; GC.isReachable is the kept predicate. '
+            'BOUNDED only: the copy phase (copyToPacktime/copyDataRecords/copyRest/copyOne/PackCopier), the index of '
+            'the packed file, blobs, MappingStorage.pack/DemoStorage.pack and the statement as observed through '
+            'load/iterator/undo - by the before/after harness.',
+    'note': 'Assumes RI-TILING of the input file, A-REFERENCESF (classification proved in C14), A-DICT-OF-LISTS, the list '
+            'multiset model. Garbage as of the pack time that a later state references again WITHOUT writing it is '
+            'removed (allowed by the first sentence of the property; the harness exempts exactly those objects).',
+    'design_ref': 'DESIGN.md section 5 C07',
+}
+
 NOT_YET = {}
